@@ -434,7 +434,7 @@ func c13Release(e *Env) {
 func c16Probe(e *Env) {
 	const rule = "C16.probe"
 	r := e.R
-	r.Explainf("C16.probe: the update path of the generator decides whether a handler/middleware declaration already exists with bytes.Contains(file, []byte(fmt.Sprintf(format, name…))). For every such probe in cmd/hz/generator whose format starts its first verb with a generated identifier, the constant text immediately before that verb must end in a byte that cannot occur inside a Go identifier (space, '(' …). Without it `_bMw()` is found inside `func _a_bMw()`, the declaration is not appended, and the regenerated router calls an undeclared function.")
+	r.Explainf("C16.probe: the update path of the generator decides whether a handler/middleware declaration already exists with bytes.Contains(file, []byte(fmt.Sprintf(format, name…))). For every such probe in cmd/hz/generator whose format starts its first verb with a generated identifier, the constant text immediately before that verb must end in a byte that cannot occur inside a Go identifier (space, '(' …). Without it `_bMw()` is found inside `func _a_bMw()`, the declaration is not appended, and the regenerated router calls an undeclared function. A probe whose needle is a bare generated value (`[]byte(info.DepPkg)`, no Sprintf, no concatenation with a delimiter) is reported for the same reason: the import path of package hello is found inside that of hello/example and hello's routes are never registered.")
 	w, err := e.HZ()
 	if err != nil {
 		r.Fail(rule, "engine:load-cmd-hz", "-", "cmd/hz module loads", err.Error())
@@ -501,6 +501,44 @@ func c16Probe(e *Env) {
 			f := calleeOf(info, call)
 			if f == nil || f.Pkg() == nil || f.Name() != "Contains" || (f.Pkg().Path() != "bytes" && f.Pkg().Path() != "strings") {
 				return true
+			}
+			// a needle that is a bare generated value (`[]byte(info.DepPkg)`): no delimiter at all
+			// (router, middleware and register generation only: the files of the property; handler and
+			// custom-template updates are outside it)
+			if cv, ok := unparen(call.Args[1]).(*ast.CallExpr); ok && len(cv.Args) == 1 && strings.HasSuffix(w.Fset.Position(fi.Decl.Pos()).Filename, "/router.go") {
+				if tv, isT := info.Types[cv.Fun]; isT && tv.IsType() {
+					inner := unparen(cv.Args[0])
+					_, isSel := inner.(*ast.SelectorExpr)
+					_, isID := inner.(*ast.Ident)
+					if tvv, has := info.Types[inner]; (isSel || isID) && has && tvv.Value == nil {
+						bare := true
+						if v := usedVar(info, inner); v != nil && !v.IsField() {
+							// a local built with delimiters elsewhere (Sprintf / concatenation) is not bare
+							ast.Inspect(fi.Decl.Body, func(m ast.Node) bool {
+								if as, ok := m.(*ast.AssignStmt); ok && len(as.Lhs) == 1 && len(as.Rhs) == 1 && usedVar(info, as.Lhs[0]) == v {
+									switch unparen(as.Rhs[0]).(type) {
+									case *ast.BinaryExpr, *ast.CallExpr:
+										bare = false
+									}
+								} else if ok && len(as.Lhs) == 1 && len(as.Rhs) == 1 {
+									if id, isI := as.Lhs[0].(*ast.Ident); isI && info.Defs[id] == types.Object(v) {
+										switch unparen(as.Rhs[0]).(type) {
+										case *ast.BinaryExpr, *ast.CallExpr:
+											bare = false
+										}
+									}
+								}
+								return true
+							})
+						}
+						if bare {
+							ord++
+							n++
+							r.Fail(rule, fmt.Sprintf("%s:probe#%d:bare-needle", fname, ord), w.Pos(call.Pos()), "existence probe cannot match inside a longer name or path",
+								"`"+types.ExprString(call)+"` searches for the bare value `"+types.ExprString(inner)+"`: it is also found inside a longer one (import path .../router/hello inside .../router/hello/example), the entry is taken as present and its registration is never generated")
+						}
+					}
+				}
 			}
 			for _, sp := range sprintfsOf(call.Args[1]) {
 				if len(sp.Args) < 2 {
